@@ -223,6 +223,15 @@ func runConn(rd *round, env *connEnv, p *plan, phase time.Duration) *observation
 		startReader()
 	}
 	clk := clock{time.Now().Add(phase + 2*time.Millisecond)}
+	clk.sleepUntil(origin)
+	if p.Dialed {
+		// the connection is established (the dial callback has run) and nobody has set a deadline: the dial timer, which
+		// lives in the write-timer slot, must be gone.  No timing is involved: this is reported without a re-run.
+		if _, wA, _, closed := nbio.VerifDeadlineState(c); wA && !closed {
+			o.Direct = append(o.Direct, problem{"oracle", "stale-dial-timer",
+				fmt.Sprintf("DialAsyncTimeout(3 s) to a loopback listener: %d us after the dial callback reported success the connection's write timer (the dial timer, error ErrDialTimeout) is still armed although nobody set a deadline; it will close the established connection with \"dial timeout\", and a later SetWriteDeadline only re-arms it with that error", clk.us()-origin+int64((phase+2*time.Millisecond)/time.Microsecond))})
+		}
+	}
 	for _, po := range p.Ops {
 		clk.sleepUntil(rd.slotUS(2 * po.Slot))
 		op := obsOp{}
